@@ -239,7 +239,7 @@ package keeper
 //@ func (*Keeper).SetUndelegationRecords
 //@   requires ctx.height >= 0
 //@   modifies store(ctx, "delegation")
-//@   ensures[C03.sur.err]  (err != nil) <==> exists(j, 0, len(records), records[j].CompleteBlockNumber < ctx.height)
+//@   ensures[C03.sur.err,C18.sur.err]  (err != nil) <==> exists(j, 0, len(records), records[j].CompleteBlockNumber < ctx.height)
 //@   ensures[C03.sur.none] len(records) == 0 ==> state(ctx) == old(state(ctx))
 //@   ensures[C03.sur.one,C04.sur.one]  err == nil && len(records) == 1 ==>
 //@        get(ctx, "delegation", urKey(records[0].OperatorAddr, records[0].BlockNumber, records[0].LzTxNonce, records[0].TxHash)) != nil &&
@@ -351,7 +351,7 @@ package keeper
 //@   requires record != nil
 //@   modifies get(ctx, "delegation", recKeyOf(record)), get(ctx, "delegation", stIdxKey(record.StakerID, record.AssetID, record.LzTxNonce)),
 //@            get(ctx, "delegation", pendIdxKey(record.CompleteBlockNumber, record.LzTxNonce))
-//@   ensures[C03.dur.spec] err == nil && state(ctx) == put(put(put(old(state(ctx)), "delegation", recKeyOf(record), nil), "delegation",
+//@   ensures[C03.dur.spec,C04.dur.spec] err == nil && state(ctx) == put(put(put(old(state(ctx)), "delegation", recKeyOf(record), nil), "delegation",
 //@        stIdxKey(record.StakerID, record.AssetID, record.LzTxNonce), nil), "delegation", pendIdxKey(record.CompleteBlockNumber, record.LzTxNonce), nil)
 
 // The records due at a height: non-nil, pairwise distinct objects (each decoded from the store into a fresh object)
@@ -431,13 +431,13 @@ package keeper
 //@ func (*Keeper).IterateUndelegationsByStakerAndAsset
 //@   modifies store(ctx, "delegation"), trace, heap["x/delegation/types.UndelegationRecord"]
 //@   before[C03.iusa.record] #opFunc requires *arg_undelegation == unm["x/delegation/types.UndelegationRecord"](res_Get_0) && arg_undelegationKey == res_Value_0
-//@   ensures[C03.iusa.persist] defined(res_Value_0) && err == nil && isUpdate ==>
+//@   ensures[C03.iusa.persist,C01.iusa.persist] defined(res_Value_0) && err == nil && isUpdate ==>
 //@        get(ctx, "delegation", cat(urPfx(), res_Value_0)) == res_MustMarshal_0
 //@   ensures[C03.iusa.readonly] !isUpdate ==> state(ctx) == old(state(ctx))
 //@ loop #1
 //@   invariant !isUpdate ==> state(ctx) == old(state(ctx))
 //@   invariant traceN() >= old(traceN())
-//@   step[C03.iusa.persist] traceN() == old(traceN()) + 1 && (isUpdate ==> get(ctx, "delegation", cat(urPfx(), res_Value_0)) == res_MustMarshal_0)
+//@   step[C03.iusa.persist,C01.iusa.persist] traceN() == old(traceN()) + 1 && (isUpdate ==> get(ctx, "delegation", cat(urPfx(), res_Value_0)) == res_MustMarshal_0)
 
 // ---------------------------------------------------------------------------------------------
 // C09/C01: delegateTo moves exactly the delegated amount from the staker's withdrawable balance into the operator's
@@ -498,11 +498,11 @@ package keeper
 //@   requires stDeposit(ctx, stakerID, assetID) >= 0
 //@   flag pure=Logger
 //@   modifies state(ctx), *undelegation
-//@   ensures[C01.nst.record] err == nil ==> val(undelegation.ActualCompletedAmount) == old(val(undelegation.ActualCompletedAmount)) - nstTaken(pendingSlashAmount, old(undelegation.ActualCompletedAmount)) &&
+//@   ensures[C01.nst.record,C03.nst.record] err == nil ==> val(undelegation.ActualCompletedAmount) == old(val(undelegation.ActualCompletedAmount)) - nstTaken(pendingSlashAmount, old(undelegation.ActualCompletedAmount)) &&
 //@        val(undelegation.ActualCompletedAmount) >= 0
 //@   ensures[C01.nst.deposit] err == nil ==> stDeposit(ctx, stakerID, assetID) == old(stDeposit(ctx, stakerID, assetID)) - nstTaken(pendingSlashAmount, old(undelegation.ActualCompletedAmount))
 //@   ensures[C01.nst.left]   err == nil ==> val(final_pendingSlashAmount) == val(pendingSlashAmount) - old(val(undelegation.ActualCompletedAmount))
-//@   ensures[C01.nst.stop]   err == nil ==> (r0 <==> val(final_pendingSlashAmount) <= 0)
+//@   ensures[C01.nst.stop,C03.nst.stop]   err == nil ==> (r0 <==> val(final_pendingSlashAmount) <= 0)
 
 // ---------------------------------------------------------------------------------------------
 // C03 (no record is ever lost): the two indexes must identify the record they point at - two different records must
@@ -604,3 +604,13 @@ package keeper
 //@   flag pure=AccAddressFromBech32,Logger,Info
 //@   flag havoc=RemoveShare,UpdateStakerAssetState
 //@   before[C09.nst.positive,C01.nst.positive] RemoveShare requires val(arg_share) > 0
+
+// C01 (a native-restaking decrease is taken from everything the staker has delegated): the delegated total is the sum over
+// ALL delegation records of the staker and asset - an emptied record adds nothing and does not end the walk; only an
+// error does.
+//@ func (Keeper).TotalDelegatedAmountForStakerAsset$1
+//@   requires keys != nil && amounts != nil && !isnil(amounts.UndelegatableShare)
+//@   flag noframe
+//@   flag pure=MustAccAddressFromBech32,GetOperatorAddr,GetOperatorSpecifiedAssetInfo,TokensFromShares
+//@   ensures[C01.tdasa.walk] err == nil ==> !r0
+//@   ensures[C01.tdasa.empty] val(amounts.UndelegatableShare) == 0 ==> !r0 && err == nil && final_amount == amount
